@@ -144,8 +144,21 @@ def flags(repo):
     else:
         raise ValueError(f"RealNode: element readers changed ({n_rr} ReadReal, {n_rn} ReadNumber/ReadReal)")
 
-    # ---- SkipInstance
+    # ---- ReadPcd / ReadTokenSeparator (print control directives of Part 21 edition 1)
     rf0 = rd("src/clstepcore/read_func.cc")
+    pcd = _strip(_body(rf0, r"Severity\s+ReadPcd\(\s*istream\s*&\s*in\s*\)", "ReadPcd"))
+    m = re.fullmatch(r"\{\s*char\s+c\s*;\s*in\.get\(\s*c\s*\)\s*;\s*if\(\s*c\s*==\s*'\\\\'\s*\)\s*\{\s*in\.get\(\s*c\s*\)\s*;\s*"
+                     r"if\(\s*c\s*==\s*'F'\s*\|\|\s*c\s*==\s*'N'\s*\)\s*\{\s*in\.get\(\s*c\s*\)\s*;\s*if\(\s*c\s*==\s*'\\\\'\s*\)\s*\{\s*(in\.get\(\s*c\s*\)\s*;\s*)?"
+                     r"return\s+SEVERITY_NULL\s*;\s*\}\s*\}\s*\}\s*cerr\s*<<[^;]*;\s*return\s+SEVERITY_WARNING\s*;\s*\}", pcd)
+    if not m:
+        raise ValueError("ReadPcd: shape changed")
+    out["pcdEatsNextChar"] = m.group(1) is not None
+    rts = _strip(_body(rf0, r"void\s+ReadTokenSeparator\(\s*istream\s*&\s*in", "ReadTokenSeparator"))
+    if not re.search(r"while\(\s*in\s*\)\s*\{\s*in\s*>>\s*ws\s*;\s*c\s*=\s*in\.peek\(\)\s*;\s*switch\(\s*c\s*\)\s*\{\s*case\s+'/'\s*:.*?ReadComment\(\s*in\s*,\s*s\s*\)\s*;.*?break\s*;\s*"
+                     r"case\s+'\\\\'\s*:\s*ReadPcd\(\s*in\s*\)\s*;\s*break\s*;\s*case\s+'\\n'\s*:\s*in\.ignore\(\)\s*;\s*break\s*;\s*default\s*:\s*return\s*;\s*\}\s*\}", rts, re.S):
+        raise ValueError("ReadTokenSeparator: dispatch changed")
+
+    # ---- SkipInstance
     sk = _strip(_body(rf0, r"Severity\s+SkipInstance\(\s*istream\s*&\s*in", "SkipInstance"))
     if not re.search(r"case\s+';'\s*:\s*return\s+SEVERITY_NULL", sk) or not re.search(r"case\s+'\\''\s*:\s*in\.putback\(\s*c\s*\)\s*;\s*tmp\.STEPread", sk):
         raise ValueError("SkipInstance: shape changed")
@@ -168,6 +181,14 @@ def flags(repo):
         out["recoveryKeepsSemicolon"] = True
     else:
         raise ValueError(f"recovery scan: unknown code at `;`: {t[:80]!r}")
+    # the loops themselves: `recoverScan` of the model transliterates exactly these two nested loops (character-wise, not
+    # string-aware, one look-ahead after `)` that is examined again by the outer loop); any other scan is not the model's
+    if not re.search(r"while\(\s*in\.good\(\)\s*&&\s*!foundEnd\s*\)\s*\{\s*while\(\s*in\.good\(\)\s*&&\s*\(\s*c\s*!=\s*'\)'\s*\)\s*\)\s*\{\s*"
+                     r"in\.get\(\s*c\s*\)\s*;\s*tmp\s*\+=\s*c\s*;\s*\}\s*if\(\s*in\.good\(\)\s*&&\s*\(\s*c\s*==\s*'\)'\s*\)\s*\)\s*\{\s*"
+                     r"in\s*>>\s*ws\s*;\s*in\.get\(\s*c\s*\)\s*;\s*tmp\s*\+=\s*c\s*;\s*if\(\s*c\s*==\s*';'\s*\)\s*\{[^{}]*\}\s*\}\s*\}\s*"
+                     r"_error\.AppendToDetailMsg\(\s*tmp\.c_str\(\)\s*\)", rb):
+        raise ValueError("SDAI_Application_instance::STEPread: the recovery scan after 'No more attributes were expected' is no longer "
+                         "the two nested character loops the model's recoverScan transliterates")
     # constants of the instance reader the model transliterates
     for pat, what in [(r"if\(\s*severe\s*<=\s*SEVERITY_USERMSG\s*\)", "attribute merge threshold"),
                       (r"CheckRemainingInput\(\s*in,\s*&_error,\s*\"ENTITY\",\s*\",\)\"\s*\)", "delimiter resynchronisation"),
@@ -331,4 +352,12 @@ def rwLexCfg : StepModel.P21.LexCfg :=
 
 end StepModel.Generated
 """
-    return {"P21RWGen.lean": lean}
+    pcdlean = f"""-- GENERATED by tools/extract.d/p21rw.py from src/clstepcore/read_func.cc (ReadPcd)
+namespace StepModel.Generated
+
+/-- `ReadPcd` reads one more character after the closing backslash of a print control directive (and loses it) -/
+def pcdEatsNextChar : Bool := {_b(f['pcdEatsNextChar'])}
+
+end StepModel.Generated
+"""
+    return {"P21RWGen.lean": lean, "P21PcdGen.lean": pcdlean}
